@@ -17,6 +17,7 @@ import (
 	"com.tuntun.rangers/node/src/middleware/types"
 	"pgregory.net/rapid"
 
+	"verifharness/internal/blockgen"
 	"verifharness/internal/boot"
 	"verifharness/internal/stats"
 )
@@ -58,9 +59,60 @@ type tree struct {
 	blocks  []*mblock // creation order, without genesis
 	byHash  map[common.Hash]*mblock
 	txs     []*types.Transaction
+	// pool bookkeeping across the history
+	everCanon   map[common.Hash]bool // transactions seen executed on the canonical chain at some check
+	evictedEver map[common.Hash]bool // transactions some block of the tree evicted
+	// model of the pending pool of the running node: mustPending[h] = the last thing that happened to
+	// transaction h was a submission or the removal of the block that had executed it (and not its
+	// execution or eviction by a block added to the chain since)
+	mustPending map[common.Hash]bool
 }
 
+// cur is the tree the running node is fed from (set by refillPool); deliver keeps its pool model current.
+var cur *tree
+
+// noteHeadChange replays on the pool model what a head change does: the blocks from the old head
+// down to the fork point are removed (their transactions are queued again), then the blocks of the new
+// branch are added bottom-up (their transactions are executed, the ones they evict are dropped).
+func (tr *tree) noteHeadChange(before, after common.Hash) {
+	if before == after {
+		return
+	}
+	a, b := tr.byHash[before], tr.byHash[after]
+	if a == nil || b == nil {
+		return // reported by checkInvariants
+	}
+	f := lca(a, b)
+	for x := a; x != nil && x != f; x = x.parent {
+		for _, tx := range x.txs {
+			tr.mustPending[tx.Hash] = true
+		}
+	}
+	for x := b; x != nil && x != f; x = x.parent {
+		for _, tx := range x.txs {
+			delete(tr.mustPending, tx.Hash)
+		}
+		for _, h := range x.hdr.EvictedTxs {
+			delete(tr.mustPending, h)
+		}
+	}
+}
+
+// the first nOperator transactions are operator transfers from the faucet (each credits its own target);
+// then one transfer that funds key K(0), and one wrapped Ethereum transaction of K(0): while K(0) is not funded
+// on the path, a block that is handed the Ethereum transaction evicts it (the fee cannot be paid)
+const nOperator = 8
+
 func mkTx(i int) *types.Transaction {
+	if i == nOperator {
+		tx := &types.Transaction{Source: faucet, Type: types.TransactionTypeOperatorEvent, Time: "2024-05-01 00:01:00",
+			ExtraData: fmt.Sprintf(`{"%s":{"balance":"5"}}`, blockgen.Addr(0)), Nonce: uint64(i + 1), ChainId: common.ChainId(1)}
+		tx.Hash = tx.GenHash()
+		return tx
+	}
+	if i == nOperator+1 {
+		return blockgen.EthTransfer(0, 0, fmt.Sprintf("0x%040x", 0xb000), big.NewInt(0), 21000)
+	}
 	tx := &types.Transaction{
 		Source:    faucet,
 		Target:    "",
@@ -151,8 +203,8 @@ func buildTree(t *rapid.T) *tree {
 	defer n.Stop()
 	ch := boot.Chain()
 	g := &mblock{hdr: ch.TopBlock()}
-	tr := &tree{genesis: g, byHash: map[common.Hash]*mblock{g.hdr.Hash: g}}
-	for i := 0; i < 8; i++ {
+	tr := &tree{genesis: g, byHash: map[common.Hash]*mblock{g.hdr.Hash: g}, everCanon: map[common.Hash]bool{}, evictedEver: map[common.Hash]bool{}}
+	for i := 0; i < nOperator+2; i++ {
 		tr.txs = append(tr.txs, mkTx(i))
 	}
 	for _, tx := range tr.txs {
@@ -170,6 +222,30 @@ func buildTree(t *rapid.T) *tree {
 			parent = canon[d]
 			forkChild = canon[d-1]
 		}
+		// when the canonical chain holds the Ethereum transaction in a block X above a block E that evicted it,
+		// half of the time the next block forks off between E and X and is heavier: X is removed, E stays
+		aimedReorg := false
+		{
+			eth := tr.txs[nOperator+1].Hash
+			ix, ie := -1, -1
+			for k, a := range canon {
+				for _, tx := range a.txs {
+					if tx.Hash == eth && ix < 0 {
+						ix = k
+					}
+				}
+				for _, h := range a.hdr.EvictedTxs {
+					if h == eth && ix >= 0 && ie < 0 {
+						ie = k
+					}
+				}
+			}
+			if ix >= 0 && ie > ix && rapid.Bool().Draw(t, "aimReorgOfOnceEvicted") {
+				d := rapid.IntRange(ix+1, ie).Draw(t, "aimedForkDepth")
+				parent, forkChild, aimedReorg = canon[d], canon[d-1], true
+				stats.Class("build_heavier_fork_between_evicting_block_and_later_executing_block")
+			}
+		}
 		height := parent.hdr.Height + 1
 		if rapid.IntRange(0, 7).Draw(t, "gap") == 0 {
 			height += uint64(rapid.IntRange(1, 2).Draw(t, "gapSize"))
@@ -179,6 +255,9 @@ func buildTree(t *rapid.T) *tree {
 		if parent == head {
 			target = int64(head.hdr.TotalQN) + int64(rapid.IntRange(0, 2).Draw(t, "qnInc"))
 		}
+		if aimedReorg {
+			target = int64(head.hdr.TotalQN) + int64(rapid.IntRange(1, 2).Draw(t, "aimedQN"))
+		}
 		inc := target - int64(parent.hdr.TotalQN)
 		if inc < 0 {
 			inc = 0
@@ -187,7 +266,7 @@ func buildTree(t *rapid.T) *tree {
 		// a fork two or more blocks deep with the same cumulative QN as the head is decided by the prove values at
 		// the fork point: aim some of them between the prove value of the local block after the fork point and
 		// that of the local tip, so that comparing with the wrong one of the two gives the opposite answer
-		if forkChild != nil && forkChild != head && rapid.IntRange(0, 2).Draw(t, "aimEqualWeightFork") == 0 {
+		if forkChild != nil && forkChild != head && !aimedReorg && rapid.IntRange(0, 2).Draw(t, "aimEqualWeightFork") == 0 {
 			target = int64(head.hdr.TotalQN)
 			inc = target - int64(parent.hdr.TotalQN)
 			if inc < 0 {
@@ -210,9 +289,42 @@ func buildTree(t *rapid.T) *tree {
 			}
 		}
 		var txs []*types.Transaction
-		for _, tx := range tr.txs {
-			if !used[tx.Hash] && len(txs) < 2 && rapid.IntRange(0, 3).Draw(t, "takeTx") == 0 {
+		// candidates in a generated order; the funding transfer and the Ethereum transaction it enables first in
+		// half of the blocks, so that "evicted, later executed, then reorged out" histories are common
+		cands := rapid.Permutation(tr.txs).Draw(t, "candOrder")
+		ethTx, fundTx := tr.txs[nOperator+1], tr.txs[nOperator]
+		evictedOnPath := false
+		for _, a := range ancestors(parent) {
+			for _, h := range a.hdr.EvictedTxs {
+				if h == ethTx.Hash {
+					evictedOnPath = true
+				}
+			}
+		}
+		switch {
+		case evictedOnPath && used[fundTx.Hash] && !used[ethTx.Hash]:
+			cands = append([]*types.Transaction{ethTx}, cands...) // evicted earlier on this path, payable now
+			// its sender submits it again; the builder node forgets what it evicted the way every node does when
+			// it is restarted, so that the block can be built whatever the pool thinks of evicted transactions
+			if err := n.Restart(); err != nil {
+				t.Fatalf("VERIF-INCONCLUSIVE builder restart: %v", err)
+			}
+			ch = boot.Chain()
+			refillPool(tr)
+		case evictedOnPath && !used[fundTx.Hash]:
+			cands = append([]*types.Transaction{fundTx}, cands...)
+		case rapid.Bool().Draw(t, "ethFirst"):
+			cands = append([]*types.Transaction{ethTx}, cands...)
+		}
+		taken := map[common.Hash]bool{}
+		for i, tx := range cands {
+			want := rapid.IntRange(0, 3).Draw(t, "takeTx") <= 1
+			if i == 0 && evictedOnPath {
+				want = rapid.IntRange(0, 3).Draw(t, "takeAimed") > 0
+			}
+			if !used[tx.Hash] && !taken[tx.Hash] && len(txs) < 2 && want {
 				txs = append(txs, tx)
+				taken[tx.Hash] = true
 			}
 		}
 		sort.Sort(types.Transactions(txs))
@@ -228,10 +340,36 @@ func buildTree(t *rapid.T) *tree {
 			stats.Class(fmt.Sprintf("build_refused_code%d_ntx%d_ext%v", code, len(txs), parent == head))
 			continue
 		}
+		if len(bh.EvictedTxs) > 0 { // evicted transactions are not part of the block
+			stats.Class(fmt.Sprintf("build_block_with_evictions_%d_of_%d", len(bh.EvictedTxs), len(txs)))
+			var kept []*types.Transaction
+			for _, tx := range txs {
+				ev := false
+				for _, h := range bh.EvictedTxs {
+					if h == tx.Hash {
+						ev = true
+						tr.evictedEver[h] = true
+					}
+				}
+				if !ev {
+					kept = append(kept, tx)
+				}
+			}
+			txs = kept
+		}
 		if _, dup := tr.byHash[bh.Hash]; dup {
 			// the same content drawn twice gives the very same block (same hash): not a new tree node
 			stats.Class("build_identical_block_skipped")
 			continue
+		}
+		for _, tx := range txs {
+			if tx.Hash == tr.txs[nOperator+1].Hash {
+				if tr.evictedEver[tx.Hash] {
+					stats.Class("build_eth_tx_executed_after_having_been_evicted")
+				} else {
+					stats.Class("build_eth_tx_executed_never_evicted")
+				}
+			}
 		}
 		blk := &types.Block{Header: bh, Transactions: txs}
 		raw, err := types.MarshalBlock(blk)
@@ -349,7 +487,7 @@ func checkInvariants(tr *tree, where string, strictPool bool) (head *mblock, err
 			sErr = fmt.Errorf("faucet balance not readable")
 		}
 		// balances of transfer targets reflect exactly the canonical transactions
-		for i, tx := range tr.txs {
+		for i, tx := range tr.txs[:nOperator] {
 			executed := false
 			for _, b := range onChain {
 				for _, btx := range b.txs {
@@ -387,6 +525,7 @@ func checkInvariants(tr *tree, where string, strictPool bool) (head *mblock, err
 		}
 		ex := pool.GetExecuted(tx.Hash)
 		if in != nil {
+			tr.everCanon[tx.Hash] = true
 			if ex == nil {
 				return head, fmt.Errorf("%s: tx%d is in canonical block %s but has no executed record", where, i, in.name())
 			}
@@ -399,7 +538,19 @@ func checkInvariants(tr *tree, where string, strictPool bool) (head *mblock, err
 			return head, fmt.Errorf("%s: tx%d is in no canonical block but still has an executed record (block %s)", where, i, ex.Receipt.BlockHash.Hex())
 		} else if strictPool {
 			if !pool.IsExisted(tx.Hash) {
+				if !tr.mustPending[tx.Hash] {
+					// evicted by a block added to the chain after its last submission / re-queueing: the pool
+					// dropped it and nothing requires it back
+					stats.Class("pool_evicted_tx_not_pending")
+					continue
+				}
+				if tr.everCanon[tx.Hash] {
+					return head, fmt.Errorf("%s: tx%d was executed in a block that has since been removed from the chain, and did not become pending again", where, i)
+				}
 				return head, fmt.Errorf("%s: tx%d is in no canonical block and is not pending either", where, i)
+			}
+			if tr.evictedEver[tx.Hash] && tr.everCanon[tx.Hash] {
+				stats.Class("pool_tx_once_evicted_then_executed_then_removed_is_pending")
 			}
 			if got, e := pool.GetTransaction(tx.Hash); e != nil || got == nil || got.Hash != tx.Hash {
 				return head, fmt.Errorf("%s: pending tx%d not retrievable", where, i)
@@ -410,8 +561,11 @@ func checkInvariants(tr *tree, where string, strictPool bool) (head *mblock, err
 }
 
 func refillPool(tr *tree) {
+	cur = tr
+	tr.mustPending = map[common.Hash]bool{}
 	for _, tx := range tr.txs {
 		boot.Pool().AddTransaction(tx) // refused for executed ones
+		tr.mustPending[tx.Hash] = true
 	}
 }
 
@@ -420,7 +574,11 @@ func deliver(b *mblock) (res types.AddBlockResult, p interface{}) {
 	if err != nil {
 		panic("harness: cannot re-parse own block: " + err.Error())
 	}
+	before := boot.Chain().TopBlock().Hash
 	p = safely(func() { res = boot.Chain().AddBlockOnChain(blk) })
+	if cur != nil {
+		cur.noteHeadChange(before, boot.Chain().TopBlock().Hash)
+	}
 	return
 }
 
@@ -449,6 +607,9 @@ func TestBlockTreeHistories(t *testing.T) {
 		if rapid.Bool().Draw(t, "mostlyInOrder") {
 			sort.SliceStable(order, func(i, j int) bool { return order[i].id < order[j].id })
 		}
+		// a third of the histories run in one process lifetime (what a node remembers in memory only, such
+		// as the transactions recent blocks evicted, is then in force for the whole history)
+		calm := rapid.IntRange(0, 2).Draw(t, "oneProcessLifetime") == 0
 		head, err := checkInvariants(tr, "fresh node", true)
 		if err != nil {
 			t.Fatalf("%v", err)
@@ -458,7 +619,10 @@ func TestBlockTreeHistories(t *testing.T) {
 		var trace []string
 		delivered := map[*mblock]bool{}
 		for step, b := range order {
-			action := rapid.SampledFrom([]string{"deliver", "deliver", "deliver", "deliver", "crash", "crash", "restart"}).Draw(t, "action")
+			action := "deliver"
+			if !calm {
+				action = rapid.SampledFrom([]string{"deliver", "deliver", "deliver", "deliver", "crash", "crash", "restart"}).Draw(t, "action")
+			}
 			old := head
 			switch action {
 			case "restart":
@@ -466,7 +630,7 @@ func TestBlockTreeHistories(t *testing.T) {
 					t.Fatalf("VERIF-INCONCLUSIVE restart: %v", err)
 				}
 				restarts++
-				strict = false // the pending pool is in memory only
+				strict = true // the pending pool is in memory only, but every transaction is submitted again right below
 				refillPool(tr)
 				trace = append(trace, "restart")
 				h2, err := checkInvariants(tr, fmt.Sprintf("step %d after restart", step), false)
@@ -512,7 +676,7 @@ func TestBlockTreeHistories(t *testing.T) {
 					t.Fatalf("restart after crash at write %d of deliver %s failed: %v\ntree: %s\ntrace: %v", nth, b.name(), err, tr.describe(), trace)
 				}
 				restarts++
-				strict = false
+				strict = true // as after a clean restart: everything is submitted again below
 				if dropped > 0 {
 					crashes++
 					stats.Class(fmt.Sprintf("crash_at_write_%02d", nth))
